@@ -243,7 +243,24 @@ def build_sign_or_light(r):
 def s_network_c(draw):
     ids = gs.Ids(draw(gs.id_pool(60)))
     net = draw(gs.network_recipe(ids=ids, max_lanelets=5, lim=500))
-    return draw(gs.add_signs_lights(net, ids))
+    net = draw(gs.add_signs_lights(net, ids))
+    return dict(net, _pole=draw(st.sampled_from([None, None, "shared-array", "int-array"])))
+
+
+def build_network_c(r):
+    """The network of the recipe; "_pole": a sign and a light stand on the same pole and were given the very same
+    position array (through the public position setters), or positions are integer-typed arrays."""
+    net = gs.build_network(r)
+    signs, lights = net.traffic_signs, net.traffic_lights
+    if r.get("_pole") == "shared-array" and signs and lights:
+        pos = np.array(signs[0].position, dtype=float)
+        signs[0].position = pos
+        for li in lights[:2]:
+            li.position = pos
+    elif r.get("_pole") == "int-array":
+        for x in signs + lights:
+            x.position = np.array([int(round(float(v))) for v in x.position])
+    return net
 
 
 def s_goal(tier):
@@ -281,8 +298,9 @@ FACETS = [
     facet("lanelet", s_lanelet, gs.build_lanelet, 2500, 120000,
           "lanelets with 2-8 vertices with / without stop line incl. polygon and length"),
     facet("sign-light", s_sign_or_light, build_sign_or_light, 1500, 50000, "traffic sign / light positions", 1),
-    facet("network", lambda tier: s_network_c(), lambda r: gs.build_network(r), 800, 40000,
-          "networks of 1-5 lanelets with signs, lights, stop lines"),
+    facet("network", lambda tier: s_network_c(), build_network_c, 800, 40000,
+          "networks of 1-5 lanelets with signs, lights, stop lines; a sign and lights sharing one position array, "
+          "integer-typed position arrays"),
     facet("goal-region", s_goal, gs.build_goal, 1500, 80000, "1-3 goal states with shapes / angle intervals", 1),
     facet("planning-problem", s_pp, gs.build_planning_problem, 1200, 60000, "initial state + goal region", 1),
     facet("planning-problem-set", s_pps, gs.build_pps, 600, 30000, "two planning problems", 1),
